@@ -7,7 +7,7 @@ from ..monitors import Failpoints, FileLog, InjectedFault
 from .c05 import env_of
 
 PLAN = {
-    "quick": {"shards": 8, "cases": 120, "min_nontrivial": 500, "budget_s": 240},
+    "quick": {"shards": 8, "cases": 150, "min_nontrivial": 600, "budget_s": 300},
     "thorough": {"shards": 16, "cases": 500, "min_nontrivial": 4000, "budget_s": 1700},
 }
 LEVEL = "fault_enumeration"
